@@ -3,6 +3,7 @@ import Esp.Lemmas.ReconnectLock
 import Esp.Lemmas.ReconnectStop
 import Esp.Lemmas.ReconnectTries
 import Esp.Lemmas.ReconnectCli
+import Esp.Lemmas.ReconnectAlt
 import Esp.Gen.Consts
 /-!
 # C18 — reconnect manager: one attempt at a time, specified backoff, clean stop
@@ -233,6 +234,21 @@ theorem c18_disconnect_delay (s : St) (tid : Nat) (expected : Bool) :
 
 def cbs (s : St) : List Act := s.log.filter fun a => a = .onConnect ∨ a = .onDisconnect true ∨ a = .onDisconnect false
 
+/-- **C18 (alternation), partial: every history without `stop()`.**  `altState` scans the log and is `none` as soon as two
+`on_connect` or two `on_disconnect` follow each other (or the first callback is an `on_disconnect`).  For EVERY sequence of
+events that contains no `stop()` call — start calls, attempt outcomes, session endings, mDNS records, timers, single ready
+handles in any interleaving — the callbacks alternate, starting with `on_connect`; the sequence is "open" exactly while a
+session is live or its end has not been reported yet (`Alt.a5o/a5c`).  What is missing for the full statement is `stop()`:
+with it the claim is false (next theorem). -/
+theorem c18_alternate_partial (named : Bool) (evs : List Ev) (h : ∀ e ∈ evs, e ≠ .callStop) :
+    altState (run (init named) evs).log ≠ none :=
+  alternates_without_stop named evs h
+
+example : altState [.attempt, .onConnect, .arm 5, .onDisconnect true, .attempt, .onConnect] = some true ∧
+    altState [.onConnect, .onDisconnect false] = some false ∧
+    altState [.onConnect, .attempt, .onConnect] = none ∧ altState [.onDisconnect true] = none ∧
+    altState [.onConnect, .onDisconnect true, .onDisconnect false] = none := by decide
+
 /-- **C18 (alternation) does NOT hold in general — witness.**  `stop()` during a live session, `start()`, and the old
 session ending before the new connect task takes the lock: the new session's `on_connect` is reported before the old
 session's `on_disconnect`.  Replayed on the implementation (known finding, findings/C18-*.json). -/
@@ -241,6 +257,12 @@ theorem c18_alternate_witness :
                           .callStop, .callStart, .sessionEnd false,                          -- stop, start, session 1 ends
                           .pop, .startDone .ok, .pop, .finishDone .ok, .pop, .pop]) =         -- session 2, then the late report
       [.onConnect, .onConnect, .onDisconnect false] := by
+  decide
+
+/-- the same witness seen by `altState` -/
+theorem c18_alternate_witness' :
+    altState (run (init true) [.callStart, .pop, .startDone .ok, .pop, .finishDone .ok, .pop, .callStop, .callStart,
+      .sessionEnd false, .pop, .startDone .ok, .pop, .finishDone .ok, .pop, .pop]).log = none := by
   decide
 
 end Esp.C18
